@@ -159,7 +159,7 @@ COMMON_ASSUMPTIONS = [
 
 
 def generic(pid, tier, *, profiles, own, twin_flag=None, n_quick=400, n_thorough=4000, cfgs=None,
-            real_n=0, level="model_checking", extra_assumptions=None, rule=None, chunk=None):
+            real_n=0, level="model_checking", extra_assumptions=None, rule=None, chunk=None, gen_kwargs=None):
     """profiles: list of generator profile names; own(div) -> bool says whether a rejected
     execution is this property's business; twin_flag: ops carrying this flag are removed to
     build the twin execution (the property is blamed only if the twin is accepted)."""
@@ -171,7 +171,7 @@ def generic(pid, tier, *, profiles, own, twin_flag=None, n_quick=400, n_thorough
         b["cfg"].setdefault("proj", True)
     per = max(1, n // len(profiles))
     for p in profiles:
-        behs += G.corpus(p, "tiny", per, C.seed(), cfgs=cfgs, prefix="%s_" % p)
+        behs += G.corpus(p, "tiny", per, C.seed(), cfgs=cfgs, prefix="%s_" % p, **(gen_kwargs or {}))
     traces, verd, stats = ck.run_and_validate(behs, "tiny", chunk=chunk)
     byid = {b["id"]: b for b in behs}
     failed = [g for g in verd if not verd[g]["ok"]]
@@ -202,7 +202,7 @@ def generic(pid, tier, *, profiles, own, twin_flag=None, n_quick=400, n_thorough
     if real_n and tier == "thorough":
         rb = []
         for p in profiles:
-            rb += G.corpus(p, "real", real_n, C.seed(), cfgs=cfgs, prefix="R%s_" % p)
+            rb += G.corpus(p, "real", real_n, C.seed(), cfgs=cfgs, prefix="R%s_" % p, **(gen_kwargs or {}))
         rtr, rverd, rstats = ck.run_and_validate(rb, "real", chunk=10)
         rby = {b["id"]: b for b in rb}
         for g in [g for g in rverd if not rverd[g]["ok"]][:MAX_DIAG]:
